@@ -98,6 +98,16 @@ def gen_lock_scope(repo):
     out += f'Definition socket_write_after_unlock : bool := {"true" if socket_write_later else "false"}.\n'
     out += '(* the authorization handler is consulted before the unit lock is taken *)\n'
     out += f'Definition authorization_before_lock : bool := {"true" if authorization_before_lock else "false"}.\n'
+    # ffi server.rs device_map_add_endpoint: a unit id that is already registered is refused BEFORE anything else happens
+    ab = ''.join(fn_body(ffi, r'pub\(crate\)\s+unsafe\s+fn\s+device_map_add_endpoint\s*\(', 'ffi server.rs device_map_add_endpoint').split())
+    i_check = ab.find('ifmap.inner.contains_key(&unit_id){returnfalse;}')
+    i_cfg = ab.find('configure.callback(')
+    i_ins = ab.find('map.inner.insert(unit_id,handler)')
+    if i_cfg < 0 or i_ins < 0:
+        raise ParseError('ffi server.rs device_map_add_endpoint: configure.callback(..) / map.inner.insert(unit_id, handler) not found')
+    dup_refused_first = 0 <= i_check < i_cfg < i_ins and ab.count('map.inner.insert(') == 1
+    out += '(* ffi server.rs device_map_add_endpoint: `if map.inner.contains_key(&unit_id) { return false; }` precedes the configure callback and the only insert *)\n'
+    out += f'Definition duplicate_unit_refused_before_any_effect : bool := {"true" if dup_refused_first else "false"}.\n'
     out += '(* broadcast: the loop over the units takes each unit lock separately, inside the loop body *)\n'
     out += f'Definition broadcast_locks_each_unit_separately : bool := {"true" if broadcast_per_unit else "false"}.\n'
     return out
